@@ -51,6 +51,16 @@ func ruleC04_1(c *Ctx, r *Rep) {
 			}
 		}
 		r.Check("C04.1", fmt.Sprintf("C04.1:next-attempt-lookup#%d", n), q.Pos, !bad, "the wake-up lookup sees not-yet-due rows", "the next-attempt lookup is restricted by attempt_at: a puller would not learn when the next message becomes due")
+		// the lookup answers "when does the EARLIEST deadline pass": first row in ascending attempt_at order
+		first := false
+		for _, t := range q.Terms {
+			if strings.HasPrefix(t.Name, "First") || strings.HasPrefix(t.Name, "Only") {
+				first = true
+			}
+		}
+		asc := len(q.Order) >= 1 && q.Order[0].Col == "attempt_at" && !q.Order[0].Desc
+		r.Check("C04.1", fmt.Sprintf("C04.1:next-attempt-earliest#%d", n), q.Pos, !first || asc, "the wake-up lookup takes the earliest deadline",
+			"the next-attempt lookup takes one row but not the one with the earliest attempt_at (ORDER BY attempt_at ASC): a blocked puller sleeps past the deadline of a message that is due again")
 	}
 	r.Floor("C04.1:lookup", n, 1)
 }
@@ -718,6 +728,10 @@ func triggerOK(call ssa.CallInstruction) (bool, string) {
 			continue
 		}
 		sx, sy := sources(b.X), sources(b.Y)
+		if (sx["field:Attempts"] && sy["field:MaxDeliveryAttempts"] || sy["field:Attempts"] && sx["field:MaxDeliveryAttempts"]) && (hasArith(b.X, 0) || hasArith(b.Y, 0)) {
+			why = "the comparison is not between the stored attempt count and the configured limit themselves (an operand is adjusted by arithmetic): the message is forwarded one delivery early or late"
+			continue
+		}
 		if sx["field:Attempts"] && sy["field:MaxDeliveryAttempts"] {
 			if (b.Op == token.GEQ && cd.Pol) || (b.Op == token.LSS && !cd.Pol) {
 				hasCmp = true
@@ -1062,4 +1076,35 @@ func ruleC06_5(c *Ctx, r *Rep) {
 			r.Check("C06.5", "C06.5:each-candidate-once@"+fnNack, ci.Pos(), okLoop, "the nack walks its selected rows (distinct by primary key), not the requested id list", "the nack's dead-letter / reschedule loop does not range over the selected rows themselves: an id repeated in one request is processed — and forwarded — more than once")
 		}
 	}
+}
+
+// hasArith: the value is computed by arithmetic (not merely loaded / converted / selected) somewhere on its way.
+func hasArith(v ssa.Value, d int) bool {
+	if v == nil || d > 12 {
+		return false
+	}
+	switch x := v.(type) {
+	case *ssa.BinOp:
+		switch x.Op {
+		case token.ADD, token.SUB, token.MUL, token.QUO, token.REM, token.SHL, token.SHR:
+			return true
+		}
+		return false
+	case *ssa.UnOp:
+		if x.Op == token.SUB {
+			return true
+		}
+		return hasArith(x.X, d+1)
+	case *ssa.Convert:
+		return hasArith(x.X, d+1)
+	case *ssa.ChangeType:
+		return hasArith(x.X, d+1)
+	case *ssa.Phi:
+		for _, e := range x.Edges {
+			if hasArith(e, d+1) {
+				return true
+			}
+		}
+	}
+	return false
 }
